@@ -185,3 +185,28 @@ func VerifC04_ReadyWaiter() {
 	verifQuiesce()
 	verifReach("end")
 }
+
+// C04 (a trigger while the project is still starting up): p0 cannot be started and has
+// exit_on_failure; the shutdown it triggers may arrive while Run() is still registering the other
+// processes. Run() returns - with p0's exit code - and nothing is left alive.
+func VerifC04_EarlyTrigger() {
+	w := vInit()
+	p0 := vConf("p0", nil)
+	p0.RestartPolicy.Restart = types.RestartPolicyExitOnFailure
+	w.behav["p0"] = &vBehav{startErr: true}
+	p1 := vConf("p1", nil)
+	p2 := vConf("p2", nil)
+	w.behav["p1"] = &vBehav{untilStop: []bool{true}}
+	w.behav["p2"] = &vBehav{untilStop: []bool{true}}
+	r := vRunner(vProject(p0, p1, p2), false)
+	err := r.Run() // must return (a hang is reported by the engine)
+	var ee *ExitError
+	if errors.As(err, &ee) {
+		verifAssert("exit.code.of.the.failed.start", ee.Code == 1)
+	} else {
+		verifFail("failed.start.with.exit_on_failure.reports.no.error")
+	}
+	verifAssert("nothing.alive.when.run.returns", vAliveTotal() == 0)
+	verifQuiesce()
+	verifReach("end")
+}
